@@ -118,6 +118,14 @@ func main() {
 					c = enginex.GenServiceCut(r)
 				}
 			}
+			if i%16 == 7 || i%16 == 9 {
+				// 1 in 4 of the v2 cases: retry groups in the middle of a batch (short / holed processor replies)
+				c = enginex.GenRetry(r)
+			}
+			if i%16 == 6 || i%16 == 14 {
+				// 1 in 4 of the v1 cases: head-of-line blocking in a parallel processor fed by several sources
+				c = enginex.GenParallelHol(r)
+			}
 			if *level == "service" {
 				c = enginex.GenService(r, eng)
 			} else if i%16 == 15 {
